@@ -42,6 +42,38 @@ CHECKS = {
    technique="exhaustive exploration of the complete per-query outcome tree of the real sync and async resolve() loops with scripted nameservers and a virtual clock, against a reference model of the stub algorithm plus model-independent invariants",
    text="For ~20 resolver configurations (servers 1-3, search list/ndots/domain rules, retry_servfail, tcp, always-max-size server, raise_on_no_answer, Cache/LRUCache with preloaded hit/no-data/NXDOMAIN entries, lifetime and timeout variants) the explorer extends a script of per-query outcomes (answer, CNAME chains incl. 15/16/17 links, no-data, NXDOMAIN, SERVFAIL, REFUSED, NOTIMP, YXDOMAIN, malformed, truncated, timeout, OSError, EOF, answer-with-NXDOMAIN) whenever the real resolver asks for one more, until the resolver itself terminates; every complete script is run through dns.resolver.Resolver.resolve and dns.asyncresolver.Resolver.resolve (coroutine driven without an event loop), which must agree with each other and with mc's reference (query sequence with server/tcp/name/timeout, back-off sleeps, result class and payload, elapsed time, cache keys), and satisfy invariants (no broken server re-asked per candidate, one TCP retry after truncation, NXDOMAIN only if all candidates NXDOMAIN, cache serves an immediate second resolution without queries).",
    note="Scripted dns.nameserver.Nameserver subclasses (public extension point); virtual clock; rotate off; a timeout outcome consumes exactly the offered timeout; outcome alphabets are per configuration (listed in the evidence)."),
+ "C02": dict(level="exploration", ref="DESIGN.md §2 C02",
+   technique="k-deviation / full-product enumeration of per-type field values against an independent per-type reference wire codec, plus exhaustive short byte strings and single-fault enumeration of valid encodings",
+   text="For all 69 implemented rdata type modules, 5 unknown/generic (class,type) cases and 14 EDNS option codecs (through OPT), mc/refs/rdschema.py gives a field schema with boundary-value domains and a reference encoder/decoder written from each type's RFC layout; every value within the k-deviation bound (full product where small) is encoded by the reference and decoded by the library (and vice versa), with and without origin, requiring equal records and byte-identical re-encoding; every byte string up to length 2 over all 256 values and up to n over an 8-value alphabet, and every truncation / byte substitution / trailing byte of every valid encoding, must give FormError or a record that consumed exactly rdlen and whose encoding is a decode/encode fixed point.",
+   note="Bounded field domains and string lengths; reference codec written from RFC layouts (one-sided, so symmetric slips are visible); arbitrary-octet runs use origin None."),
+ "C03": dict(level="exploration", ref="DESIGN.md §2 C03",
+   technique="small-scope enumeration of message headers, EDNS states and up to 3 RRsets from a 22-RRset pool in all sections, judged by an independent wire parser with a compression-pointer audit",
+   text="Messages over every opcode, flags/rcodes incl. extended rcodes, EDNS versions/flags/payloads/option lists, dynamic-update delete/prerequisite forms and all owner-name sharing patterns are rendered (with and without origin, plus crafted messages placing suffixes around offset 0x3FFF); mc/refs/wiremsg.py parses the bytes independently (counts vs records, all bytes consumed, every pointer strictly backwards, <= 0x3FFF and decoding to exactly the expected suffix), the library's from_wire must give the same id/flags/opcode/rcode/EDNS state and per-section multisets incl. TTLs, and re-rendering without shuffling must be byte-identical.",
+   note="Bounded pool and message size; records compared by value (pointer targets may differ in ASCII case, RFC 4343); relative-name messages compared after derelativisation."),
+ "C05": dict(level="exploration", ref="DESIGN.md §2 C05",
+   technique="enumeration of well-formed per-type values (shared schema with C02) through to_text/from_text under origins, relativize settings and lossless style options, incl. every octet value in character-strings",
+   text="Every well-formed value of the C02 schema for all implemented types is rendered to text and parsed back under origin None/example., relativize on/off, base64/hex chunkings, txt_is_utf8 and the RFC 3597 generic form (as known and unknown type), directly and inside a zone-file line; the result must equal the record and encode to the same wire; records accepted from wire (arbitrary-octet successes) must render to text, and records accepted from text must encode to wire.",
+   note="Values restricted to what each type's presentation format can express (restrictions listed in the evidence); round-trip oracle cannot see slips that are symmetric in to_text and from_text."),
+ "C08": dict(level="exploration", ref="DESIGN.md §2 C08",
+   technique="enumeration of every size limit for a set of messages x truncation preference x EDNS/padding/TSIG variants, judged by an independent parser and TSIG verifier",
+   text="Messages of 520-1600 octets (name sharing across the cut, multi-record sets, large TXT) are rendered at every max_size from 500 to len+2 and payload-derived defaults, with prefer_truncation on/off, EDNS none/plain/COOKIE, pad 0/16/128/468 and four TSIG key-name variants; results must not exceed the effective limit, parse fully with an independent parser (no pointer into removed bytes), hold a whole-RRset prefix in section order with TC set exactly when something before ADDITIONAL was dropped, keep OPT and a verifying TSIG, and be a multiple of the pad block incl. the TSIG; oversize without truncation must raise TooBig; the Renderer is also driven directly.",
+   note="TooBig with prefer_truncation and padding is allowed by the property wording and only counted."),
+ "C09": dict(level="exploration", ref="DESIGN.md §2 C09",
+   technique="enumeration of zones (subsets of an RRset pool) x zone kinds x lossless style-option combinations for write-then-read, and of all toggle combinations of an independent zone-file writer for equivalent spellings incl. every $GENERATE modifier form",
+   text="Zones built from SOA+NS plus every subset of <= k RRsets from a pool with escaped/wildcard/ENT/63-octet owners, many types and TTL extremes are written under pairs/triples/products of the lossless style options on plain/versioned/btree zones (relativized and absolute) and read back, requiring strict equality (names, types, covers, TTLs, record sets); an independent writer renders canonical record lists under every combination of spelling toggles (owner/TTL/class inheritance, TTL-class order, $ORIGIN-relative, mid-file $ORIGIN, parentheses, comments, $GENERATE vs an independent BIND-style expansion) and every spelling must load equal; out-of-zone owners vanish; no CNAME with other data for every record order.",
+   note="Lossy options (omit_ttl, truncate_crypto, omit_final_dot, right justification) excluded by design; nl=CRLF read through universal newlines."),
+ "C13": dict(level="fault_enumeration", ref="DESIGN.md §2 C13",
+   technique="enumeration of version chains x transfer forms x every division of the record stream into messages x every single fault at every position, against an independent RFC 5936/1995 stream interpreter, on the real Inbound state machine and (subset) the real inbound_xfr over scripted sockets",
+   text="For 40 scenarios (adds, deletes, in-RRset change, TTL change, serial wrap; AXFR, IXFR with 1-3 deltas, condensed IXFR, AXFR-style IXFR, up-to-date, UDP IXFR incl. the use-TCP form; with/without question) every split of the stream into messages and every single fault (drop, duplicate, swap, truncate, surplus record after the final SOA in the same/next message, corrupt serial/owner/type/rcode) is rendered, parsed as dns.query does and fed to dns.xfr.Inbound in a with-block on plain/versioned/btree zones x relativize; mc/refs/xfr.py says valid(Z)/invalid/either: valid => zone == Z with its serial; invalid => error or unfinished and zone (content and version list) untouched; always: exception => zone unchanged.",
+   note="Streams the RFCs leave ambiguous are judged 'either' (only the universal clause applies); bounded record universe; faults x divisions product reduced for long streams (bounds in evidence)."),
+ "C14": dict(level="fault_enumeration", ref="DESIGN.md §2 C14",
+   technique="full-product enumeration of signing parameters compared MAC-by-MAC with an independent RFC 8945 implementation, plus every single-bit alteration and every structural tampering of signed messages and multi-message sequences",
+   text="All 9 HMAC algorithms x message kinds x key names x secret lengths x fudge x signing times (incl. > 32 bits) x error/other-data x original-id x request/response roles are signed via Message.use_tsig/to_wire and Renderer.add_tsig and compared with mc/refs/tsig.py (hmac/hashlib only); each is validated with five keyring forms at signed time and at signed +- fudge +- 1 under a controlled clock; every single bit of selected signed messages and of every envelope of 2-5 envelope sequences is flipped, plus wrong key/name/algorithm/secret, altered request MAC (every bit), every TSIG error code, misplaced/duplicated TSIG, dropped/swapped/replayed envelopes; all 15 unsigned-intermediate patterns produced by the reference signer must validate; no alteration of authenticated content may validate.",
+   note="Bits RFC 8945 does not authenticate are exempt and listed (wire id, name case, TSIG TTL); time via dns.message.time / dns.renderer.time seams; GSS-TSIG out of scope."),
+ "C15": dict(level="exploration", ref="DESIGN.md §2 C15",
+   technique="small-scope enumeration of records, RRsets, keys, names/salts/iterations and whole zones against an independent implementation of RFC 4034/4035/4509/5155/6840/8976",
+   text="Canonical RDATA of every type with mixed-case embedded names; RRSIG signing input over RRsets x owners x every labels value x signer relativity x unsorted/duplicate rdatas x original TTL; DS/CDS digests and key tags over key lengths and algorithms; NSEC3 hashes over names x salts x iterations; ZONEMD digests over small zones; and the NSEC chain produced by sign_zone(rrset_signer=recorder) on every zone over a 10-group name universe (delegations, glue at and below cuts, nested NS, wildcard, ENT, case variants) on plain/versioned/btree zones, relativized and absolute; each compared with mc/refs/dnssec.py, which is self-tested against the RFC example vectors.",
+   note="No private keys (cryptography absent): only the key-free computations, as the property says; unimplemented obsolete types are opaque."),
 }
 ALL = ["C%02d" % i for i in range(1, 21)]
 m = {
